@@ -60,8 +60,10 @@ class ManualExecutor(Executor):
                 raise
             except BaseException as ex:
                 fut.set_exception(ex)
+                E.emit("DelegateDone", f=sub, a=1)
             else:
                 fut.set_result(v)
+                E.emit("DelegateDone", f=sub, a=0)
 
         if d:
             name = "env%d" % sub if len(self.futs[sub]) == 1 else "env%d_%d" % (sub, len(self.futs[sub]))
